@@ -18,7 +18,7 @@ def select(pid, m):
         if f["mode"] in ("skip", "assumed"):
             continue
         mine = [c for c in f.get("clauses", []) if pid in m["clauses"][c]["tags"]]
-        if mine or pid in ALL_FUNCTIONS:
+        if mine or pid in ALL_FUNCTIONS or pid in f.get("nopanic", []):
             fns.append(key)
             mods.append(f["module"])
             clauses += mine
